@@ -12,8 +12,11 @@ package dawn
 // per-label sequences, the output lines and run-done's error are those a plain Events implementation records for the same
 // sequence of builds (Project.Run) of a fresh copy of the same project.
 //
-// Coq side: Build/Props_C18.v (per_label_shape, run_done_once_last, output_inside_window) state the protocol of the
-// stream the engine emits; this harness ties "the stream the callback receives" to that stream.
+// Coq side: Build/Pump.v models the channel and the receiving goroutine (callback_receives_the_stream: whatever the
+// callback raises it is called with the build's whole stream and no send blocks; stop_at_first_error_refuted); each run
+// is also a case for the model ("pump" lines: which of the events sent make the callback raise, how many events the
+// callback was called with, how many were never received).  Build/Props_C18.v (per_label_shape, run_done_once_last,
+// output_inside_window) state the protocol of the stream the engine emits and transfer through the pump.
 
 import (
 	"encoding/json"
@@ -268,6 +271,32 @@ func TestVerifC18Callback(t *testing.T) {
 		pre["rec"], pre["cnt"] = recList, cnt
 
 		events, nruns := 0, 0
+		cntBefore := 0
+		// which events of a stream the callback raises an error for (position i of this run, cntBefore events before it)
+		raisesBits := func(stream []cbEvent) string {
+			var b strings.Builder
+			for i, e := range stream {
+				r := false
+				switch sc.Style {
+				case 1:
+					r = e.Kind != "Print"
+				case 2:
+					r = true
+				case 3:
+					r = cntBefore+i+1 == 1
+				case 4:
+					r = (cntBefore+i+1)%sc.K == 0
+				case 5:
+					r = e.Kind == "RunDone"
+				}
+				if r {
+					b.WriteByte('1')
+				} else {
+					b.WriteByte('0')
+				}
+			}
+			return b.String()
+		}
 		for ri, run := range sc.Runs {
 			// reference
 			rec.mu.Lock()
@@ -297,6 +326,7 @@ func TestVerifC18Callback(t *testing.T) {
 			case <-time.After(20 * time.Second):
 				oracle("run %d (%+v) did not return within 20 s; the callback had received %d events; a plain Events implementation receives %d for the same build",
 					ri, run, recList.Len(), len(ref))
+				fmt.Fprintf(out, "pump\t%s\t%d\t%d\t%s\n", raisesBits(ref), recList.Len(), len(ref)-recList.Len(), scJSON)
 				hangs++
 				goto nextScenario
 			}
@@ -311,6 +341,10 @@ func TestVerifC18Callback(t *testing.T) {
 				got = append(got, e)
 			}
 			events += len(got)
+			// model correspondence (Build/Pump.v): the events sent, which of them make the callback raise, how many the callback
+			// was called with, how many were never received
+			fmt.Fprintf(out, "pump\t%s\t%d\t%d\t%s\n", raisesBits(ref), len(got), 0, scJSON)
+			cntBefore += len(got)
 			if (refErr == nil) != (cbErr == nil) {
 				oracle("run %d (%+v): run(...) returned %v, Project.Run of the same build returns %v", ri, run, cbErr, refErr)
 			}
